@@ -248,6 +248,10 @@ def judge(case: Dict[str, Any], obs: Any) -> None:
     a = case["app"]
     if ws.conn.handler_exc is not None:
         raise Violation("handler_exception", repr(ws.conn.handler_exc), backend=be)
+    if carrier == "h2" and not getattr(ws, "connect_protocol_announced", True):
+        raise Violation("extended_connect_not_announced", "the server's SETTINGS lack "
+                        "ENABLE_CONNECT_PROTOCOL = 1: no conforming client would attempt a "
+                        "WebSocket over this HTTP/2 connection (RFC 8441 3)", backend=be)
     ws_insts = [i for i in obs.instances if i.scope.get("type") == "websocket"]
     instances = [i for i in obs.instances if i.scope.get("path") != "/prior"]
     if len(obs.instances) - len(instances) != case.get("prior", 0):
